@@ -151,6 +151,21 @@ def fixed_corpus():
     # MinimumTrials given to the Nest itself, not a multiple of the inner block's length (rounded up to whole groups)
     add(D([A2, B2], nest(cross('A', 'A'), cross('B', 'B'), [['MinimumTrials', 5]])))
     add(D([A2, B3], nest(cross('A', 'A'), cross('B', 'B'), [['MinimumTrials', 7]])))
+    # a transition over TWO factors (both repeat / otherwise), crossed, constrained and implied; and a second-order
+    # derived factor over it
+    TR2 = {'name': 'R', 'window': {'kind': 'transition', 'factors': ['A', 'B']},
+           'levels': [{'name': 'r0', 'pred': ['table', [[[x, x], [y, y]] for x in ('a0', 'a1') for y in ('b0', 'b1')]]},
+                      {'name': 'r1', 'else': True}]}
+    add(D([A2, B2, TR2], cross('ABR', 'AB')))
+    add(D([A2, B2, TR2], cross('ABR', 'A', [['MinimumTrials', 4], ['AtMostKInARow', 1, 'R', 'r1']])))
+    add(D([A2, B2, TR2], cross('ABR', 'R')))
+    add(D([A2, B2, TR2], cross('ABR', 'AR')))
+    W2 = {'name': 'W', 'window': {'kind': 'window', 'factors': ['A', 'B'], 'width': 2, 'stride': 1, 'start': 0},
+          'levels': [{'name': 'w0', 'pred': ['table', [[[None, x], [None, y]] for x in ('a0', 'a1') for y in ('b0', 'b1')] +
+                                                      [[[x, x], [y, z]] for x in ('a0', 'a1') for y in ('b0', 'b1') for z in ('b0', 'b1')]]},
+                     {'name': 'w1', 'else': True}]}
+    add(D([A2, B2, W2], cross('ABW', 'AB', [['ExactlyK', 2, 'W', 'w0']])))
+    add(D([A2, B2, W2], cross('ABW', 'AB')))
     # a two-trial preamble over a 3-level factor (3**2 preambles, not 3*2)
     add(D([A3, window('W', 'A', 3)], cross('AW', 'W')))
     # a window wider than the whole sequence (two trials), starting early: shifted source indices run past the grid
